@@ -59,7 +59,12 @@ def gen_history(r):
                 tags = [["e", r.choice(targets)["id"]]]
                 k = keys[0]
             ts = gen.T0 + r.choice([0, 1, 5, 10, 10, 20])
-            e = ref.make_event(k, kind=kind, created_at=ts, tags=tags, content="t%d" % i)
+            deleg = None
+            if kind != 5 and r.random() < 0.2:
+                # signed by k on behalf of ANOTHER key (NIP-26): it is still k's event, only k may delete it
+                dk = r.choice([x for x in keys if x.pk != k.pk])
+                deleg = (dk, "kind=%d" % kind)
+            e = ref.make_event(k, kind=kind, created_at=ts, tags=tags, content="t%d" % i, delegation=deleg)
             evs.append(e)
             if kind != 5:
                 targets.append(e)
